@@ -22,7 +22,7 @@ class Run:
         self.pending_at_end = 0
 
 
-def run_main(main, *, horizon=100000.0, tie=1, shutdown=True, world=None, before=None):
+def run_main(main, *, horizon=100000.0, tie=1, shutdown=True, world=None, before=None, after_main=None):
     """Equivalent of asyncio.run(main()) on a VLoop, with hang detection.
 
     `before(loop)` (optional) runs with the loop installed as current loop but
@@ -46,6 +46,8 @@ def run_main(main, *, horizon=100000.0, tie=1, shutdown=True, world=None, before
         except BaseException as e:   # noqa - main() failed
             r.error = e
         r.end_time = world.now
+        if after_main is not None:
+            after_main(r)
         if shutdown:
             try:
                 r.pending_at_end = len(asyncio.all_tasks(loop))
